@@ -321,8 +321,8 @@ def bfs(ctx, cls, depth, max_states, roots):
         transitions += 1
         try:
             g2, _ = step(cls, g, m, op)
-        except Violation as v:
-            ctx.fail_now(v, case)
+        except Exception as v:
+            ctx.fail_exc(v, case)
             return None
         try:
             key = (canonical_json(m2.snapshot()), fingerprint(g2))
@@ -339,8 +339,8 @@ def bfs(ctx, cls, depth, max_states, roots):
             gq = rebuild(cls, hist + [op])
             try:
                 step(cls, gq, m2, ["q", q])
-            except Violation as v:
-                ctx.fail_now(v, {"cls": cls, "mode": "bfs",
+            except Exception as v:
+                ctx.fail_exc(v, {"cls": cls, "mode": "bfs",
                                  "ops": hist + [op, ["q", q]]})
         return m2
 
